@@ -81,11 +81,15 @@ if __name__ == '__main__':
     elif cmd == 'refresh':
         # re-run every seeded change and record the current result in its meta.json
         # (the result of the very first run is kept as first_quick_check_result)
-        only = sys.argv[2:]
+        only = [a for a in sys.argv[2:] if not a.startswith('--')]
+        missed_only = '--missed-only' in sys.argv
         for sid in sorted(os.listdir(os.path.join(V, 'seeded'))):
             mp = os.path.join(V, 'seeded', sid, 'meta.json')
             if not os.path.exists(mp) or (only and not any(sid.startswith(o) for o in only)): continue
             m = json.load(open(mp))
+            if missed_only and (m.get('outside_statement') or all(
+                    r.get('caught') for r in (m.get('quick_check_result') or {'x': {}}).values())):
+                continue
             res = check(sid)
             cur = {p: {'caught': v['rc'] == 1, 'rc': v['rc'], 'sigs': v['sigs'][:3]} for p, v in res.items()}
             if 'first_quick_check_result' not in m:
